@@ -491,3 +491,65 @@ add('C19-closed-session-still-reads-one-packet', 'mw3_19', 1, 'C19',
     also=['C15'],
     checks={'C19 quick': "caught: 215 of 400 runs of the new scenario (measured with the developer loop), C19/oob/delivered-to-a-closed-session 'the out-of-band handler of A ran 13 ms after that session had been closed' (scenario oob-successor, added in response; missed before)", 'C15 quick': 'missed (not its statement)'},
     notes="First evaluation: missed - the harness gave every session a PacketConn of its own, so no session ever shared a conn with a closed one's parked read loop. The new scenario closes a pair on caller-owned conns, creates successors with a new conversation on the same conns and lets out-of-band messages be the first datagrams after the Close.")
+
+add('C10-flush-buffer-sized-from-the-previous-mtu', 'mw4_10', 1, 'C10',
+    "KCP.SetMtu allocates the flush buffer before storing the new MTU, i.e. for the MTU in force before the call",
+    change="kcp.go SetMtu: kcp.buffer = make(...) moved above kcp.mtu = uint32(mtu) and sized from kcp.mtu",
+    needs="a reduction to a small MTU followed later by an increase on the same connection (e.g. 400 then 1400) and a full-size segment in a flush (the 3x slack hides any single call)",
+    checks={'C10 quick': 'caught: 123 runs, C10/survive/panic slice bounds out of range @ (*KCP).flush and index out of range @ (*segment).encode (an ACCEPTED MTU must not crash)'})
+
+add('C04-ack-only-flush-admits-segments', 'mw4_04', 2, 'C04',
+    "the admission loop of flush runs in an ACK-only flush too (the inverse of fix 33fc511): segments admitted against the window of that moment reach the wire in the next full flush whatever the window is then",
+    change="kcp.go flush: for flushType == IKCP_FLUSH_FULL {  ->  for {",
+    needs="an ACK-only flush (SetACKNoDelay(true), or 58+ pending ACKs), data waiting in snd_queue, and the peer closing its window before the next full flush",
+    checks={'C04 quick': "caught: 9 runs, C04/admission/new-segment-beyond-advertised-window 'new sn put on the wire with 6 outstanding; min(send window 16, window last advertised to it 3) = 3'"})
+
+add('C05-stale-groups-discarded-only-when-the-newest-advances', 'mw4_05', 1, 'C05',
+    "fecDecoder.decode calls discardShards only inside the branch that advances the newest id: packets of groups far behind the newest one pile up until something newer arrives",
+    change="fec.go decode: dec.discardShards() moved inside 'if ... newer than newestShardId'",
+    needs="a newest group established, then datagrams of many different OLD groups while nothing newer arrives",
+    checks={'C05 quick': "caught: 41 runs, C05/bloat/fec-shard-sets 'the FEC decoder holds 17 shard sets'"})
+
+add('C06-listener-aead-guard-forgets-the-nonce', 'mw4_06', 1, 'C06',
+    "the listener's AEAD branch guards len(data) < Overhead() instead of nonceSize+Overhead()",
+    change="sess.go Listener.packetInput (AEAD case): if len(data) < nonceSize+block.Overhead()  ->  if len(data) < block.Overhead()",
+    needs="to PANIC: a caller-supplied AEAD whose nonce is longer than its tag and a datagram in between; with the stock AES-GCM (nonce 12, tag 16) only the counters differ",
+    checks={'C06 quick': "caught: 3 runs, C06/counter/csum-error-counter 'InCsumErrors went from 0 to 1 after a corrupted datagram of 16 bytes; expected 0' (the counter oracle; the configuration space has no AEAD with a nonce longer than its tag, so the panic itself is not reached)"})
+
+add('C06-client-crc-mismatch-breaks-out-of-the-switch', 'mw4_06', 2, 'C06',
+    "UDPSession.packetInput leaves the type switch with 'break' instead of 'return' after a CRC mismatch: the failed datagram goes on to kcpInput with its CRC prefix attached",
+    change="sess.go UDPSession.packetInput (CRC branch): return -> break after counting InCsumErrors",
+    needs="the dialled path and a CRC-type cipher; with FEC on and particular sequence ids the garbage reaches the FEC decoder or the OOB handler",
+    checks={'C06 quick': "caught: 371 runs, C06/no-effect/counter-changed 'counter InPkts went from 0 to 1 after a datagram failing the integrity check'"})
+
+add('C09-entropy-source-unlocks-before-the-copy', 'mw4_09', 1, 'C09',
+    "rngAES.Read releases its mutex right after updateSeed: the in-place AES step and the copy-out run unlocked, two sessions can hand out the same 16 bytes as nonce",
+    change="entropy.go rngAES.Read: r.mutex.Unlock() moved up to directly after r.updateSeed()",
+    needs="two sessions drawing a nonce at overlapping moments (real parallelism inside the entropy source)",
+    also=['C14'],
+    checks={'C09 quick': 'missed (the serialised modes replace the entropy source by a seeded stream, and nothing preempts inside Read there anyway)',
+            'C14 quick': 'missed (the racing write is inside the AES assembly routine, which the race detector does not instrument; the Go-visible accesses are reads)'},
+    notes="Missed. In response the free-running race mode now runs the library's OWN entropy sources (NewEntropyAES / NewEntropyChacha8 in turn) instead of the harness's seeded stream - the property names the entropy source among what sessions share - but this particular change stays invisible to the race detector, and the race mode has no nonce-uniqueness oracle. Recorded as a limit.")
+
+add('C14-sm4-one-cipher-instance-for-both-directions', 'mw4_09', 2, 'C14',
+    "NewSM4BlockCrypt uses one sm4 cipher object for encryption and decryption again (the inverse of fix 8c2a441)",
+    change="crypt.go NewSM4BlockCrypt: the separate decrypt-side sm4.NewCipher dropped",
+    needs="the SM4 cipher and an incoming datagram decrypted while an outgoing one is being encrypted",
+    checks={'C14 quick': 'caught: 7 runs, C14/race/decrypt16|encrypt16 (948 reports of the race detector in one run)'})
+
+add('C16-caches-not-reallocated-when-the-group-shrinks', 'mw4_16', 1, 'C16',
+    "on adopting the peer's ratio the decoder reallocates decodeCache / flagCache only if the new group is LARGER: after shrinking, Reed-Solomon is handed too many slots and recovers nothing",
+    change="fec.go decode (auto-tune branch): the caches are reallocated only if dec.shardSize > len(dec.decodeCache)",
+    needs="a receiver configured with a larger group than the sender, completed convergence, then a group with a lost data packet",
+    checks={'C16 quick': 'caught: 376 runs, C16/fec-completeness/missing-not-reconstructed (after convergence)'})
+
+# round-4 duplicates / variants
+for _id, _d in {
+    'C10-parity-size-not-reset-on-skipped-group': ['mw4_10 mutant2 (C10 agent, round 4)'],
+    'C04-stale-window-on-retransmission': ['mw4_04 mutant1 (C04 agent, round 4; same effect through the xmit == 0 branch)'],
+    'C10-setmtu-ignores-segments-in-flight': ['mw4_05 mutant2 (C05 agent, round 4; the in-flight test dropped instead of duplicated)'],
+    'C16-lazy-decoder-guard-wrong-field': ['mw4_16 mutant2 (C16 agent, round 4)'],
+}.items():
+    for _e in E:
+        if _e['id'] == _id:
+            _e['duplicate_reports'] += _d
